@@ -12,7 +12,7 @@ PID = "C12"
 
 def run(tier, v):
     wd = os.path.join(vlib.OUT, PID)
-    mcs, gens, results = silcommon.run_pipeline(PID, tier, v, ["MC_Silences_life.cfg"])
+    mcs, gens, results = silcommon.run_pipeline(PID, tier, v, ["MC_Silences_life.cfg" if tier == "thorough" else "MC_Silences_life_quick.cfg"])
     drift = silcommon.judge(PID, v, results, wd)
     cov = silcommon.base_coverage(mcs, gens, results)
     cov.update({
@@ -24,7 +24,7 @@ def run(tier, v):
                   "count limit 2, oversize comment, time 0..5; Gen: 40 ops, 6 ids, time 0..12",
     })
     return "model_checking", cov, [
-        "the API pre-checks (end in the past, start >= end) are covered by the API-level replay of C13/C12 only where stated",
+        "half of the generated Set operations go through the real POST /api/v2/silences handler (pre-checks end in the past / start >= end included); DELETE and GET handlers are not replayed",
         "no two writes to one silence id at the same instant",
     ]
 
